@@ -138,6 +138,28 @@ def js_tag(prog: Program, tier: str) -> RuleResult:
                         if w:
                             ok, why = False, w
                 r.check(ok, f"{sf.short}#tag", site(sf), src(srets[0].value) if srets else "", "tag = full name of the object's exact class", why)
+                # the pair is an inverse: the deserialiser rebuilds the value from what the serialiser stored, through a constructor call that
+                # takes the stored text and nothing else.  (Table of known text forms: str(x) is inverted by T(text) for uuid.UUID; any further
+                # argument - version=... re-stamps the version and variant bits - changes the value or is rejected.)
+                des = m.resolve(c.args[2]) if len(c.args) > 2 else None
+                df = prog.functions.get(des)
+                tq = m.resolve(c.args[0]) if isinstance(c.args[0], (ast.Name, ast.Attribute)) else None
+                if df is not None and srets and tq == "ext:uuid.UUID":
+                    stored = {}
+                    for k_, v_ in zip(srets[0].value.keys, srets[0].value.values):
+                        if isinstance(k_, ast.Constant) and isinstance(v_, ast.Call) and isinstance(v_.func, ast.Name) and v_.func.id == "str" and v_.args and src(v_.args[0]) == sf.params[0]:
+                            stored[k_.value] = "str"
+                    drets = _returns(df)
+                    good = False
+                    why2 = "the deserialiser does not return T(<the stored text>)"
+                    if len(drets) == 1 and isinstance(drets[0].value, ast.Call) and m.resolve(drets[0].value.func) == tq:
+                        call = drets[0].value
+                        a0 = call.args[0] if call.args else None
+                        reads_key = isinstance(a0, ast.Subscript) and isinstance(a0.value, ast.Name) and a0.value.id == df.params[0] and isinstance(a0.slice, ast.Constant) and a0.slice.value in stored
+                        good = reads_key and len(call.args) == 1 and not call.keywords
+                        if reads_key and not good:
+                            why2 = f"the constructor gets more than the stored text ({src(call)}): uuid.UUID(text, version=v) overwrites the version and variant bits and rejects v outside 1..5, so a UUID of version 6, 7, 8 (or a non-RFC one) does not come back"
+                    r.check(good, f"{df.short}#inverse-of:{sf.name}", site(df), src(drets[0].value) if drets else "", "T(stored text), nothing else", why2)
     if nreg == 0:
         raise AnalysisError("JS-TAG: no registry registration found (the UUID registration is the confirmed instance)")
     # overrides of to_json (src; thorough: also test/dataset as client code)
